@@ -132,6 +132,10 @@ func runPlugin(r *Run, prop string) {
 			tag := base + uint32(i)
 			ch := []string{"verif:reg", "verif:raw"}[r.W.Pick(2)]
 			body := pmBody(tag, 8+r.W.Pick(60))
+			if prop == "C25" && r.W.Pick(5) == 0 {
+				// clientbound plugin messages may be far larger than the 32767-byte serverbound cap
+				body = pmBody(tag, []int{32767, 32768, 40000, 100000}[r.W.Pick(4)])
+			}
 			s2cSent[tag], s2cChan[tag] = body, ch
 			r.Op("s2c:" + ch)
 			_ = bc.send(&plugin.Message{Channel: ch, Data: body})
@@ -161,6 +165,7 @@ func runPlugin(r *Run, prop string) {
 	sentChan := map[uint32]string{}
 	var earlyTags, lateTags []uint32
 	registered := false
+	nRegistrations := 1
 	var cl *clientModel
 	cl = w.addClient("Plug", prot, func(c *clientModel) {
 		c.OnPacket = func(rec *pktRec) {
@@ -211,6 +216,12 @@ func runPlugin(r *Run, prop string) {
 			registered = true
 			r.Op("register")
 			_ = c.send(&plugin.Message{Channel: "minecraft:register", Data: []byte("verif:client1\x00verif:client2")})
+			// mods register again after a respawn or switch: the same set, or a subset
+			for i, n := 0, r.W.Pick(3); i < n; i++ {
+				nRegistrations++
+				r.Op("register-again")
+				_ = c.send(&plugin.Message{Channel: "minecraft:register", Data: [][]byte{[]byte("verif:client1\x00verif:client2"), []byte("verif:client1")}[r.W.Pick(2)]})
+			}
 		}
 		for i := 0; i < nLate; i++ {
 			tag := uint32(5000 + i)
@@ -299,11 +310,11 @@ func runPlugin(r *Run, prop string) {
 			r.Fail("register-event-count", fmt.Sprintf("events=%d,forwarded=%d", min(regEvents, 2), min(fwd, 2)), "client registration forwarded to the backend %d time(s) but %d PlayerChannelRegisterEvent(s) fired", fwd, regEvents)
 			return
 		}
-		if fwd != 1 {
-			r.Fail("register-not-forwarded", "register", "client sent one minecraft:register in play; backend received %d", fwd)
+		if fwd != nRegistrations {
+			r.Fail("register-not-forwarded", "register", "client sent %d minecraft:register messages in play; backend received %d", nRegistrations, fwd)
 			return
 		}
-		if len(regChannels) == 1 && strings.Join(regChannels[0], ",") != "verif:client1,verif:client2" {
+		if len(regChannels) >= 1 && strings.Join(regChannels[0], ",") != "verif:client1,verif:client2" {
 			r.Fail("register-event-channels", "register", "register event lists %v, client registered verif:client1, verif:client2", regChannels[0])
 			return
 		}
